@@ -521,7 +521,8 @@ class Body:
                 return o
             if o and o[0] == "phi" and o[1] in last:
                 return resolve({"copy": {"l": o[1], "p": []}}, last, depth + 1)
-            return tuple(subst_phi(x, last, depth + 1) if isinstance(x, tuple) else ([subst_phi(y, last, depth + 1) for y in x] if isinstance(x, list) else x) for x in o)
+            # structural descent does not count against the resolution depth (deeply nested projections are common after inlining)
+            return tuple(subst_phi(x, last, depth) if isinstance(x, tuple) else ([subst_phi(y, last, depth) for y in x] if isinstance(x, list) else x) for x in o)
 
         def resolve_rv(rv, last, depth):
             k = rv["k"]
@@ -1295,7 +1296,16 @@ def inline_calls(body, want, depth=2):
                     nb["term"] = {"k": "goto", "target": t["target"], "line": t.get("line")}
                 new_blocks.append(nb)
             pre = blocks[bi]
-            for i, a in enumerate(t["args"]):
+            call_args = list(t["args"])
+            argc = cb.get("argc")
+            if "{closure" in name and re.search(r"ops::function::Fn(Mut|Once)?::call(_mut|_once)?$", d or "") and len(call_args) == 2 and argc is not None:
+                # rust-call ABI: the closure body takes the elements of the argument tuple as separate arguments
+                tup = call_args[1]
+                tp = tup.get("move") or tup.get("copy")
+                if tp is None:
+                    continue
+                call_args = [call_args[0]] + [{"copy": {"l": tp["l"], "p": list(tp["p"]) + [{"f": i, "name": str(i), "ty": cb["locals"][2 + i]["ty"]}]}} for i in range(argc - 1)]
+            for i, a in enumerate(call_args):
                 pre["stmts"].append({"k": "assign", "place": {"l": loff + 1 + i, "p": []}, "rv": {"k": "use", "x": a}, "line": t.get("line"), "exp": False,
                                      "inlined_arg": name})
             pre["term"] = {"k": "goto", "target": boff, "line": t.get("line"), "inlined_call": name}
